@@ -7,7 +7,7 @@
 //	                                                      engine) gives the same result/root as a plain run  -> same
 //	cancel <cfg> <n> <seed> <slots> <step> <k> <N>        the context reports cancellation from its k-th poll on;
 //	                                                      N = polls of the clean run. k < N must give  -> err ; k >= N -> same
-//	engine <cfg> <n> <seed> <slots> <step> <j> <M> <v>    the j-th engine call answers v (invalid|error|ctxerror|valid; ctxerror = an engine
+//	engine <cfg> <n> <seed> <slots> <step> <j> <M> <v>    the j-th engine call answers v (invalid|error|trueerror|ctxerror|valid; ctxerror = an engine
 //	                                                      error wrapping context.DeadlineExceeded while the caller's context is alive);
 //	                                                      M = engine calls of the clean run. j < M and v != valid -> err ; else same
 //	engine-nv …                                           the same with validateResult=false (no signature / state-root check)
@@ -268,7 +268,7 @@ func gen(o hreg.Opts, w *bufio.Writer) error {
 				}
 			}
 			for j := 0; j <= len(cl.calls); j++ {
-				for _, v := range []string{"invalid", "error", "ctxerror"} {
+				for _, v := range []string{"invalid", "error", "ctxerror", "trueerror"} {
 					fmt.Fprintf(w, "engine %s %d %d %d %s\n", pre, si, j, len(cl.calls), v)
 					fmt.Fprintf(w, "engine-nv %s %d %d %d %s\n", pre, si, j, len(cl.calls), v)
 				}
@@ -409,6 +409,8 @@ func exec(o hreg.Opts, sc *bufio.Scanner, w *bufio.Writer) error {
 					v = chain.EngineInvalid
 				case "error":
 					v = chain.EngineError
+				case "trueerror":
+					v = chain.EngineErrorTrue // (true, err): a Go callee may return a non-zero value together with an error
 				case "ctxerror":
 					v = chain.EngineError
 					wrapCtxErr = true
